@@ -129,6 +129,12 @@ fn gen_doc(rng: &mut Rng) -> (Vec<(String, String)>, String, String, Vec<String>
       doc.push_str(&format!("/* comment between imports */{nl}"));
       layout.push("comment-between-imports".into());
     }
+    if rng.chance(1, 8) {
+      // a comment over several lines whose end shares its line with the next import / declaration
+      let indent = if rng.bool() { "" } else { "  " };
+      doc.push_str(&format!("/*{nl} legacy notes, kept for reference{nl}{indent}*/ "));
+      layout.push("multi-line-comment-ends-on-the-next-items-line".into());
+    }
     if rng.chance(1, 6) {
       doc.push_str(nl);
     }
